@@ -257,7 +257,7 @@ impl<'a> TimeZoneRef<'a> {
                         } else if local_leap_time >= transition_end
                             && local_leap_time <= transition_start
                         {
-                            if prev.ut_offset < after_ltt.ut_offset {
+                            if prev.ut_offset > after_ltt.ut_offset {
                                 return Ok(crate::MappedLocalTime::Ambiguous(prev, after_ltt));
                             } else {
                                 return Ok(crate::MappedLocalTime::Ambiguous(after_ltt, prev));
@@ -269,7 +269,7 @@ impl<'a> TimeZoneRef<'a> {
                         if local_leap_time < transition_start {
                             return Ok(crate::MappedLocalTime::Single(prev));
                         } else if local_leap_time == transition_end {
-                            if prev.ut_offset < after_ltt.ut_offset {
+                            if prev.ut_offset > after_ltt.ut_offset {
                                 return Ok(crate::MappedLocalTime::Ambiguous(prev, after_ltt));
                             } else {
                                 return Ok(crate::MappedLocalTime::Ambiguous(after_ltt, prev));
